@@ -5,7 +5,7 @@ post-state of one symbolic path.  Top-level postconditions are written from the 
 is always over the whole view (every other slot of every state unchanged)."""
 import z3
 from z3 import (And, Or, Not, Implies, If, IntVal, BoolVal, RealVal, Const, Consts, Concat, Unit, Select, Store, Length,
-                Empty, Function, ForAll, Exists, IntSort, BoolSort, Int, Ints, Bool, SeqSort, SubSeq)
+                Empty, Function, ForAll, Exists, IntSort, BoolSort, Int, Ints, Bool, SeqSort, SubSeq, Array, K, ArraySort)
 from ..sorts import *
 from ..values import *
 
@@ -147,3 +147,25 @@ class KT:
 
     def on_next(self, c, q):
         raise NotImplementedError
+
+
+# ---------------------------------------------------------------- spec functions (R1: defining equations are
+# instantiated at the terms that occur, never left as quantified axioms)
+rep = Function('rep', Em, IntSort(), Trace)                  # rep(e, n) = [e] * n
+nexts = Function('nexts', Key, ValSeq, Trace)                # nexts(k, xs) = [Em(OUT, Next(k, x)) for x in xs]
+items_of = Function('items_of', Val, ValSeq)                 # the items an iterable value yields, in order
+seq_of_val = items_of
+
+
+def rep_def(e, j):
+    """instances of  rep(e,0) = []  and  rep(e,j+1) = rep(e,j) ++ [e]"""
+    return [rep(e, IntVal(0)) == Empty(Trace), Implies(j >= 0, rep(e, j + 1) == Concat(rep(e, j), Unit(e)))]
+
+
+def nexts_def(k, xs, j):
+    """instances of nexts(k, []) = [] and nexts(k, xs[:j+1]) = nexts(k, xs[:j]) ++ [Next(k, xs[j])]"""
+    return [nexts(k, Empty(ValSeq)) == Empty(Trace),
+            nexts(k, SubSeq(xs, 0, 0)) == Empty(Trace),
+            Implies(And(j >= 0, j < Length(xs)),
+                    nexts(k, SubSeq(xs, 0, j + 1)) == Concat(nexts(k, SubSeq(xs, 0, j)), Unit(em(OUT, Ev.Next(k, xs[j]))))),
+            SubSeq(xs, 0, Length(xs)) == xs]
